@@ -1,7 +1,7 @@
 (* DriverModel.v — the transcripts the correspondence check compares: for each family of driver case
    the model computes exactly the observables the C++ driver prints.  Executable; extracted. *)
 From Coq Require Import ZArith List Bool.
-From MdspanVerif Require Import MachInt ListAux Layouts Extents Convert.
+From MdspanVerif Require Import MachInt ListAux Layouts Extents Convert Submdspan.
 Import ListNotations.
 Local Open Scope Z_scope.
 
@@ -160,4 +160,46 @@ Definition k_dbgconv (sv : mval) (tgt : mtype) : list tval :=
       | UB => [TZ UB]
       end
   | _ => [TZ UB]
+  end.
+
+(* ---- family S: submdspan chains -------------------------------------------------------------------- *)
+Definition kind_code (m : mapping) : Z :=
+  match m with MLeft _ => 0 | MRight _ => 1 | MStride _ _ => 2 | MLPad _ _ => 3 | MRPad _ _ => 4 end.
+
+Definition s_level (t : ity) (m : mapping) (pat : pattern) (h : Z) (sls : list slice)
+  : list tval * option (mapping * pattern * Z) :=
+  match submap t m pat sls with
+  | UB => ([TZ UB], None)
+  | Ok (m', off) =>
+    let pat' := sub_pattern sls pat in
+    let h' := h + off in
+    let n := prodl (exts m') in
+    let pts := if (0 <? n) && (n <=? 400) then all_indices (exts m') else [] in
+    ([ TZ (Ok (Z.of_nat (length (exts m'))));
+       TZ (Ok (kind_code m'));
+       TL (Ok (map (fun p => match p with None => -1 | Some v => v end) pat'));
+       TL (Ok (exts m'));
+       TL (strides_list t m');
+       TZ (Ok off);
+       TZ (span_impl t m');
+       TZ (Ok h');
+       TL (rmap (map (fun o => h' + o)) (seq_res (map (offset_impl t m') pts)));
+       TL (rmap (map (fun o => h + o)) (seq_res (map (fun j => offset_impl t m (compose sls j)) pts))) ],
+     Some (m', pat', h'))
+  end.
+
+Fixpoint s_levels (t : ity) (m : mapping) (pat : pattern) (h : Z) (levels : list (list slice)) : list tval :=
+  match levels with
+  | [] => []
+  | sls :: rest =>
+      match s_level t m pat h sls with
+      | (tv, Some (m', pat', h')) => tv ++ s_levels t m' pat' h' rest
+      | (tv, None) => tv
+      end
+  end.
+
+Definition s_chain (sv : mval) (levels : list (list slice)) : list tval :=
+  match mval_build sv with
+  | UB => [TZ UB]
+  | Ok m => TZ (span_impl (mv_t sv) m) :: s_levels (mv_t sv) m (mv_pat sv) 0 levels
   end.
